@@ -23,13 +23,15 @@ Inductive xop :=
 | XWith (src : nat) (ovr : list (option val))   (* factory.Create / WithConfig accepted the override *)
 | XReject (src : nat)                           (* WithConfig rejected the override: nothing is created *)
 | XCall (i : nat)                               (* accessors (ID, IsFallbackOnErrorAllowed / ContinueOnError) *)
-| XExec (i : nat).                              (* Execute *)
+| XExec (i : nat)                               (* Execute *)
+| XCross (i j : nat).                           (* Execute of i, then of j, on ONE shared real cache: outcome of j *)
 
 Record ostep := { o_new : option (list val); o_changed : list (nat * list val); o_beh : option val }.
 
 Record case := {
   c_cat : list (string * list val);             (* Go type and view of every prototype *)
-  c_beh : list (list val * val);                (* behaviour of an instance as a function of its view *)
+  c_beh : list (list val * (val * val));        (* behaviour of an instance as a function of its view: (full behaviour
+                                                   on an always-missing cache, outcome alone) — taken from the reference *)
   c_ops : list (xop * ostep) }.
 
 (* ---- equality tests *)
@@ -43,11 +45,13 @@ Definition chg_eqb : list (nat * list val) -> list (nat * list val) -> bool :=
 Definition ostep_eqb (a b : ostep) : bool :=
   ozs_eqb (o_new a) (o_new b) && chg_eqb (o_changed a) (o_changed b) && oz_eqb (o_beh a) (o_beh b).
 
-Fixpoint lookup_beh (tbl : list (list val * val)) (v : list val) : option val :=
+Fixpoint lookup_both (tbl : list (list val * (val * val))) (v : list val) : option (val * val) :=
   match tbl with
   | [] => None
-  | (k, d) :: r => if zs_eqb k v then Some d else lookup_beh r v
+  | (k, d) :: r => if zs_eqb k v then Some d else lookup_both r v
   end.
+Definition lookup_beh tbl v := option_map fst (lookup_both tbl v).
+Definition lookup_out tbl v := option_map snd (lookup_both tbl v).
 
 (* ---- the model side *)
 Fixpoint row_index (tbl : list mech_row) (ty : string) : nat :=
@@ -71,6 +75,7 @@ Definition to_op (x : xop) : op :=
   | XReject s => OCall s "WithConfig"
   | XCall i => OCall i "ID"
   | XExec i => OCall i "Execute"
+  | XCross _ j => OCall j "Execute"
   end.
 
 Fixpoint changed_from (s s' : store) (insts : list inst) (j : nat) : list (nat * list val) :=
@@ -81,7 +86,7 @@ Fixpoint changed_from (s s' : store) (insts : list inst) (j : nat) : list (nat *
   end.
 
 (** what the model predicts to be observed after operation [x] took it from [st] to [st'] *)
-Definition predict (beh : list (list val * val)) (st st' : store * list inst) (x : xop) : ostep :=
+Definition predict (beh : list (list val * (val * val))) (st st' : store * list inst) (x : xop) : ostep :=
   let '(s, insts) := st in
   let '(s', insts') := st' in
   {| o_new := match x with
@@ -91,16 +96,22 @@ Definition predict (beh : list (list val * val)) (st st' : store * list inst) (x
      o_changed := changed_from s s' insts 0;
      o_beh := match x with
               | XExec i => match nth_error insts' i with Some v => lookup_beh beh (view s' v) | None => None end
+              | XCross _ j => match nth_error insts' j with Some v => lookup_out beh (view s' v) | None => None end
               | _ => None
               end |}.
 
-Fixpoint model_ok (tbl : list mech_row) (beh : list (list val * val)) (st : store * list inst)
+Fixpoint model_ok (tbl : list mech_row) (beh : list (list val * (val * val))) (st : store * list inst)
          (ops : list (xop * ostep)) : bool :=
   match ops with
   | [] => true
   | (x, o) :: r =>
-      match run_op tbl st (to_op x) with
-      | Some st' => ostep_eqb (predict beh st st' x) o && model_ok tbl beh st' r
+      let st1 := match x with XCross i _ => run_op tbl st (OCall i "Execute") | _ => Some st end in
+      match st1 with
+      | Some st1 =>
+          match run_op tbl st1 (to_op x) with
+          | Some st' => ostep_eqb (predict beh st st' x) o && model_ok tbl beh st' r
+          | None => false
+          end
       | None => false
       end
   end.
@@ -114,7 +125,7 @@ Definition sview (cat : list (string * list val)) (i : sinst) : option (list val
   | None => None
   end.
 
-Definition expect (cat : list (string * list val)) (beh : list (list val * val)) (is : list sinst) (x : xop)
+Definition expect (cat : list (string * list val)) (beh : list (list val * (val * val))) (is : list sinst) (x : xop)
   : option (ostep * list sinst) :=
   match x with
   | XWith src ovr =>
@@ -141,6 +152,15 @@ Definition expect (cat : list (string * list val)) (beh : list (list val * val))
                   end
       | None => None
       end
+  | XCross a k =>
+      (* whatever rule [a] left in the cache, rule [k] does what its own configuration prescribes *)
+      match nth_error is a, nth_error is k with
+      | Some _, Some i => match sview cat i with
+                          | Some v => Some ({| o_new := None; o_changed := []; o_beh := lookup_out beh v |}, is)
+                          | None => None
+                          end
+      | _, _ => None
+      end
   end.
 
 (** a new variant must have a view ([o_new = None] for an accepted override is a failure) and an
@@ -148,11 +168,11 @@ Definition expect (cat : list (string * list val)) (beh : list (list val * val))
 Definition well_observed (x : xop) (o : ostep) : bool :=
   match x with
   | XWith _ _ => match o_new o with Some _ => true | None => false end
-  | XExec _ => match o_beh o with Some _ => true | None => false end
+  | XExec _ | XCross _ _ => match o_beh o with Some _ => true | None => false end
   | _ => true
   end.
 
-Fixpoint spec_ok (cat : list (string * list val)) (beh : list (list val * val)) (is : list sinst)
+Fixpoint spec_ok (cat : list (string * list val)) (beh : list (list val * (val * val))) (is : list sinst)
          (ops : list (xop * ostep)) : bool :=
   match ops with
   | [] => true
